@@ -17,6 +17,7 @@ import time
 VERIF = os.path.dirname(os.path.dirname(os.path.abspath(__file__)))
 SPEC = os.path.join(VERIF, 'spec')
 REPO = os.environ.get('KYUPY_REPO', '/repo')
+OUT = os.environ.get('VERIF_OUT', VERIF)     # evidence/replays of mutation and matrix runs are diverted here
 JAR = '/opt/veriftools/tla/tla2tools.jar:/opt/veriftools/tla/CommunityModules-deps.jar'
 NCPU = os.cpu_count() or 4
 
@@ -214,7 +215,7 @@ class Check:
         kf = json.load(open(os.path.join(VERIF, 'known_findings.json')))
         self.known = {e['key']: e for e in kf.get('known', []) if e['property'] == pid}
         self._replay_n = 0
-        os.makedirs(os.path.join(VERIF, 'evidence'), exist_ok=True)
+        os.makedirs(os.path.join(OUT, 'evidence'), exist_ok=True)
 
     @property
     def thorough(self):
@@ -350,8 +351,8 @@ class Check:
         self._replay_n += 1
         rp = None
         if len(self.violations) < 20:
-            os.makedirs(os.path.join(VERIF, 'replays'), exist_ok=True)
-            rp = os.path.join(VERIF, 'replays', '%s-%d-%d.json' % (self.pid, self.seed, self._replay_n))
+            os.makedirs(os.path.join(OUT, 'replays'), exist_ok=True)
+            rp = os.path.join(OUT, 'replays', '%s-%d-%d.json' % (self.pid, self.seed, self._replay_n))
             with open(rp, 'w') as f:
                 json.dump(dict(property=self.pid, seed=self.seed, tier=self.tier, key=key, what=what,
                                case=replay_data), f, indent=1, default=str)
@@ -400,8 +401,8 @@ class Check:
                   assumptions=self.assumptions, wall_s=round(wall, 2), violations=len(self.violations))
         evname = self.pid + ('.replay.json' if getattr(self, 'is_replay', False) else '.json')
         evdir = 'evidence' if self.pid.startswith('C') else 'evidence_extra'      # X.. checks are not properties of the list
-        os.makedirs(os.path.join(VERIF, evdir), exist_ok=True)
-        with open(os.path.join(VERIF, evdir, evname), 'w') as f:
+        os.makedirs(os.path.join(OUT, evdir), exist_ok=True)
+        with open(os.path.join(OUT, evdir, evname), 'w') as f:
             json.dump(ev, f, indent=1, default=str)
         print('%s %s tier=%s seed=%d states=%d transitions=%d traces=%d evaluations=%d wall=%.1fs' % (
             self.pid, 'VIOLATED' if self.violations else 'held', self.tier, self.seed, self.states,
